@@ -12,6 +12,19 @@ import sys
 
 pid = sys.argv[1]
 extra = ""
+# optional second argument "w10": secondary grammar features, inheritance of attributes, plumbing of options
+if len(sys.argv) > 2 and sys.argv[2] == "w10":
+    extra = ("This time look at the secondary features of the formats and at plumbing, wherever a slip there breaks the property above: in DFXP the inheritance "
+             "of attributes and references (a style that refers to another style, region / style / tts: attributes on body, div, p and span and which one wins, "
+             "xml:space, nested spans, br variants); in SAMI the style sheet (several classes, id selectors, comments, inline style attributes, case of tags and "
+             "attributes, unclosed tags); in WebVTT cue identifiers, NOTE / STYLE / REGION blocks, multi-line payloads and the parsing of cue settings; in SCC "
+             "tab offsets, channel bytes, special and extended characters that replace the previous character, codes split over lines, the translation tables the "
+             "writer uses; in the writers their options and how they reach the code that needs them (constructor versus write(), keyword arguments forwarded "
+             "by CaptionConverter, video size, positioning, force, defaults kept on the class), line wrapping and escaping helpers, and how layout information is "
+             "inherited from set to language to caption to node. Two cooperating edits in different functions that each look harmless are welcome. Avoid what has "
+             "been done to death: state left on a reused reader / writer object, a memo with a coarse key, set() ordering, hoisting the local lists of "
+             "merge_concurrent_captions out of its loop, Padding.__eq__ / Layout.__eq__ comparing the wrong field, the regular expression of Size.from_string, "
+             "`>` turned into `>=` on the 32-column limit, zero treated as missing, is_empty() true when one language is empty. ")
 # optional second argument "w9": the less travelled shared machinery
 if len(sys.argv) > 2 and sys.argv[2] == "w9":
     extra = ("This time concentrate on the less travelled shared machinery that the property nevertheless depends on: the CaptionSet / CaptionList / "
